@@ -36,6 +36,8 @@ pub const T_AXFR: u16 = 252;
 pub const T_MAILB: u16 = 253;
 pub const T_MAILA: u16 = 254;
 pub const T_ANY: u16 = 255;
+/// a private-use type above 255 (carried as opaque RDATA): code order and "ANY = 255" must not matter
+pub const T_PRIV: u16 = 65280;
 
 pub const C_IN: u16 = 1;
 pub const C_CH: u16 = 3;
@@ -337,6 +339,21 @@ impl URr {
 pub struct UMsg {
     pub prereqs: Vec<URr>,
     pub updates: Vec<URr>,
+    /// resolved by the interpreter against the zone as it is when the message is sent: the
+    /// prerequisite section becomes "RRset exists (value dependent)" for *every* RR of one or two
+    /// RRsets the zone holds at that moment, in a generated order (all true by construction)
+    #[serde(default, skip_serializing_if = "Option::is_none")]
+    pub full_prereq: Option<FullPrereq>,
+}
+
+#[derive(Clone, Debug, PartialEq, Eq, Hash, Serialize, Deserialize)]
+pub struct FullPrereq {
+    /// indices into the zone's RRsets (sorted by name, type; modulo their number)
+    pub first: u8,
+    pub second: Option<u8>,
+    /// 0 = first RRset then second; 1 = alternating; 2 = second in the middle of the first;
+    /// 3 = alternating, reversed
+    pub order: u8,
 }
 
 impl UMsg {
